@@ -190,6 +190,11 @@ fn dollar(_: &mut Zw) {
 fn caret(_: &mut Zw) {
     log("caret".to_owned());
 }
+// a Cucumber Expression WITHOUT parameters but with escaped reserved characters: `\/`, `\(`, `\)` stand for themselves
+#[then(expr = "I pay 5\\/6 of the price \\(approx\\)")]
+fn escapes(_: &mut Zw) {
+    log("escapes".to_owned());
+}
 // a second World: its own registry
 #[given(regex = r"^(\d+) and (\w+)$")]
 fn two2(_: &mut Zw2, a: u32, b: String) {
